@@ -1155,9 +1155,9 @@ def run(ctx):
         else:
             corpus = [rc]
     else:
-        nvalid = ctx.scale(150, 1200)
-        nbig = ctx.scale(3, 30)
-        nmal = ctx.scale(96, 600)
+        nvalid = ctx.scale(150, 1000)
+        nbig = ctx.scale(3, 15)
+        nmal = ctx.scale(96, 480)
         valid = [gen_case(rng) for _ in range(nvalid)] + [gen_case(rng, big=True) for _ in range(nbig)]
         for c in valid:
             if rng.random() < 0.7:
